@@ -14,6 +14,8 @@ R19.wprop   _writable is initialised from the aliased source's flag (or false), 
 R19.inv     a constructor that allocates fresh storage leaves _indices null
 R19.own     a constructor that refers to another array's storage (_ptr(src._ptr), _table(src._table)) takes that array's
             owner as well (_handle / _tableHandle / _refcount from the same source)
+R19.alias   a local array made from a reference-to-const array parameter (shallow copy: shared storage) is never used for mutable
+            access
 R19.tuple   PyTuple_GetItem(x,k) is unreachable unless PyTuple_Check(x) and PyTuple_Size(x)==N>k held
 R19.life    a binding whose target returns a view of self's storage without sharing the handle carries a policy that
             keeps self alive for the result's lifetime (custodian 0 = result, ward 1 = self)
@@ -191,6 +193,44 @@ def rule_inv(fx, out):
             out.append(('R19.inv', oid, HOLDS, '_indices set on a view that aliases %s\'s storage' % src, f['loc']))
         else:
             out.append(('R19.inv', oid, VIOLATED, '_indices is set although _ptr is %s: the index table addresses the source\'s unmasked storage, not the compact copy of _length elements' % ('re-pointed to fresh storage (%s)' % reassigned[0]['rhs'] if reassigned else ptr), f['loc']))
+    return n
+
+ALIASFAM = ('FixedArray', 'FixedVArray', 'FixedArray2D', 'FixedMatrix', 'StringArrayT')
+
+def rule_alias(fx, out):
+    """R19.alias: the copy constructor of the array classes is shallow, so a local made from a parameter shares the parameter's
+    storage.  A local made from a parameter that is a reference to const must not be used for mutable access (non-const
+    member call, element store): that would modify an operand the signature promises to read only - and the result would be a
+    view of that operand instead of a new array."""
+    n = 0; seen = set()
+    for f in fx.fns:
+        if f.key in seen: continue
+        ptypes = {p['name']: p['type'] for p in f['params']}
+        aliases = {}
+        for e in f.events:
+            if e['k'] != 'vardecl' or e.get('cls') not in ALIASFAM: continue
+            init = e.get('init', '')
+            m = re.match(r'^%s\s*[({]\s*(\w+)\s*[)}]$' % re.escape(e['name']), init) or re.match(r'^(\w+)$', init)
+            if not m or m.group(1) not in ptypes: continue
+            pt = ptypes[m.group(1)]
+            if not any(c in pt for c in ALIASFAM): continue
+            aliases[e['name']] = (m.group(1), pt, e['loc'])
+        if not aliases: continue
+        seen.add(f.key)
+        for name, (src, pt, loc) in aliases.items():
+            n += 1
+            oid = 'alias:%s#%s(%s)' % (sname(f), name, src)
+            is_const = pt.strip().startswith('const ')
+            muts = []
+            for e in f.events:
+                if e['k'] == 'call' and e.get('objKind') == 'local:' + name and not e.get('const') and e.get('key') and not e['name'].split('::')[-1].startswith('~'):
+                    muts.append((e['name'].split('::')[-1], e['loc']))
+                if e['k'] == 'store' and e.get('obj') == 'local:' + name and any(u['kind'] != 'read' for u in e.get('uses', [])):
+                    muts.append(('store ' + e.get('text', ''), e['loc']))
+            if is_const and muts:
+                out.append(('R19.alias', oid, VIOLATED, '%s is a shallow copy of the parameter %s (%s): it shares that array\'s storage, and %s gives mutable access to it - the operand is modified and the result is a view of it, not a new array' % (name, src, pt, ', '.join(sorted(set(m_ for m_, _ in muts)))[:120]), muts[0][1]))
+            else:
+                out.append(('R19.alias', oid, HOLDS, 'shallow copy of %s (%s): %s' % (src, pt, 'read-only use' if not muts else 'mutable use of a copy of a non-const operand, checked by that object\'s own flag'), loc))
     return n
 
 OWNED = {'FixedArray': ('_ptr', '_handle'), 'FixedVArray': ('_ptr', '_handle'), 'FixedArray2D': ('_ptr', '_handle'),
@@ -502,7 +542,7 @@ def rule_order2d(fx, out):
             out.append(('R19.order2d', 'order2d:%s@%s' % (sname(f), outer['loc'].rsplit(':', 2)[-2] if False else sname(f) + '/' + o_ + i_), VIOLATED if bad else HOLDS, bad or 'running counter %s: x index from the inner variable %s, y index from the outer variable %s' % (sorted(counters)[0], i_, o_), outer['loc']))
     return n
 
-RULES = [('order2d', rule_order2d), ('tmp', rule_tmp), ('acc', rule_acc), ('wguard', rule_wguard), ('wprop', rule_wprop), ('inv', rule_inv), ('own', rule_own), ('tuple', rule_tuple), ('life', rule_life), ('buf', rule_buf), ('str', rule_str)]
+RULES = [('order2d', rule_order2d), ('tmp', rule_tmp), ('acc', rule_acc), ('wguard', rule_wguard), ('wprop', rule_wprop), ('inv', rule_inv), ('own', rule_own), ('alias', rule_alias), ('tuple', rule_tuple), ('life', rule_life), ('buf', rule_buf), ('str', rule_str)]
 
 def emit(rep, out):
     seen = {}
@@ -526,7 +566,7 @@ def main(rep, ws, tier):
     for name, fnc in RULES: fnc(pos, pout)
     fired = set(r for r, oid, st, det, w in pout if st == VIOLATED)
     quiet = set(r for r, oid, st, det, w in pout if st == HOLDS)
-    need = {'R19.tmp', 'R19.acc', 'R19.wguard', 'R19.wprop', 'R19.inv', 'R19.own', 'R19.tuple', 'R19.life', 'R19.buf', 'R19.str'}
+    need = {'R19.tmp', 'R19.acc', 'R19.wguard', 'R19.wprop', 'R19.inv', 'R19.own', 'R19.alias', 'R19.tuple', 'R19.life', 'R19.buf', 'R19.str'}
     if need - fired:
         rep.fail_incomplete('positive examples (selftest/pyrules_pos.cpp) no longer fire for %s' % sorted(need - fired))
     if (need - {'R19.tmp'}) - quiet:
